@@ -240,7 +240,7 @@ let () =
     | ["S"; case; which; t; v] ->
         let q = if which = "sonic" then StdEnc.quoting_sonic else StdEnc.quoting_std in
         let arg = if t = "nil" then None else Some (ty_of_sx (parse_sx t), val_of_sx (parse_sx v)) in
-        (match StdEnc.std_marshal !env q (nat_of_int 30000) arg with
+        (match StdEnc.std_marshal !env q false (nat_of_int 30000) arg with
          | StdEnc.SOk b -> Stdlib.Printf.printf "S\t%s\t%s\tok\t%s\n" case which (Conv.hex_of_bytes b)
          | StdEnc.SErr x ->
              Stdlib.Printf.printf "S\t%s\t%s\terr\t%s\n" case which
